@@ -122,7 +122,7 @@ CHECKS = {
                 'references (maximal run, always succeeds). Schematic obligations on 7 grammar shapes: _ignored requests exactly the declared rules, the '
                 'entry rule begins with the skip, every literal skips exactly once after success and nothing else does; visit reaches every child of every class.',
         'design_ref': 'DESIGN.md 6 C04',
-        'note': 'Known finding: grammars without a rule named start get no leading skip. Second sentence of the statement (metamorphic) only on paper. Wiring exhaustive over the shape family only.',
+        'note': 'Second sentence of the statement (metamorphic) only on paper. Wiring exhaustive over the shape family only.',
     },
     'C06': {
         'category': 'proof',
